@@ -146,6 +146,14 @@ func newCache(cfg *CacheCfg) (cacheAPI, error) {
 		return newTyped[int](cfg, func(i int) int { return int(keys[i].Int) }, func(k int) int { return idxOfInt(uint64(k)) })
 	case KeyUint64:
 		return newTyped[uint64](cfg, func(i int) uint64 { return keys[i].Int }, func(k uint64) int { return idxOfInt(k) })
+	case KeyInt64:
+		return newTyped[int64](cfg, func(i int) int64 { return int64(keys[i].Int) }, func(k int64) int { return idxOfInt(uint64(k)) })
+	case KeyInt32:
+		return newTyped[int32](cfg, func(i int) int32 { return int32(keys[i].Int) }, func(k int32) int { return idxOfInt(uint64(k)) })
+	case KeyUint32:
+		return newTyped[uint32](cfg, func(i int) uint32 { return uint32(keys[i].Int) }, func(k uint32) int { return idxOfInt(uint64(k)) })
+	case KeyByte:
+		return newTyped[byte](cfg, func(i int) byte { return byte(keys[i].Int) }, func(k byte) int { return idxOfInt(uint64(k)) })
 	case KeyString:
 		return newTyped[string](cfg, func(i int) string { return fmt.Sprintf("k%d", keys[i].Int) }, parse)
 	case KeyBytes:
